@@ -6,8 +6,10 @@ VARIABLES par, pred
 vars == <<par, pred>>
 Init == /\ par \in [units : 0..3, preview : {"off", "zero", "small", "huge"},
                     icap : {"200", "204", "204preview", "100then200", "100then204", "status500", "abortBeforeReply", "abortMidHead", "abortMidBody", "garbage"},
-                    bypass : BOOLEAN, mode : {"respmod"}]
+                    bypass : BOOLEAN, mode : {"respmod"},
+                    aframing : {"length", "none"}]       \* does the adapted header announce its body length?
         /\ (par.icap \in {"204preview", "100then200", "100then204"} => par.preview # "off")
+        /\ (par.icap \notin {"200", "100then200", "abortMidBody"} => par.aframing = "length")   \* only matters when an adapted message exists
         /\ pred = "?"
 Early == par.icap \in {"status500", "abortBeforeReply", "abortMidHead", "garbage"}
 Predict == CASE par.icap \in {"200", "100then200"} -> "adapted"
